@@ -188,7 +188,14 @@ static void *racer(void *arg) {
     uint8_t m[6] = {0x02, 0xBB, 0, 0, (uint8_t)t, 0xA0};
     pthread_barrier_wait(&bar);
     for (int i = 0; i < race_frames; i++) {
-        switch (i % 5) {
+        switch (i % 6) {
+        case 5:   /* emit: two emitees, then the ACK */
+            mk_discover(buf, v->mtu, m, 7);
+            buf[17] = 2; memcpy(buf, v->mac, 6); memcpy(buf + 18, v->mac, 6);
+            buf[30] = 0; buf[31] = (uint8_t)(1 + (i & 0x7F)); buf[32] = 0; buf[33] = 2;
+            buf[34] = 1; buf[35] = 1; memcpy(buf + 36, v->mac, 6); memset(buf + 42, 0x20 + t, 6);
+            buf[48] = 0; buf[49] = 0; memcpy(buf + 50, v->mac, 6); memset(buf + 56, 0x30 + t, 6);
+            break;
         case 0: mk_discover(buf, v->mtu, m, 7); break;
         case 1: mk_discover(buf, v->mtu, m, 7); buf[17] = 4; memcpy(buf + 18, v->mac, 6); buf[24 + 5] = (uint8_t)i; break; /* probe */
         case 2: mk_discover(buf, v->mtu, m, 7); buf[17] = 6; memcpy(buf, v->mac, 6); memcpy(buf + 18, v->mac, 6); break;        /* query */
